@@ -137,6 +137,15 @@ Fixpoint maxcount (a : nat) (b : body) : nat :=
   | BStar x | BPlus x => match maxcount a x with 0 => 0 | _ => 2 end
   end.
 
+(* every ordered choice has at least one alternative (always so for a parsed grammar) *)
+Fixpoint alts_nonempty (b : body) : bool :=
+  match b with
+  | BTok | BAsg _ _ => true
+  | BSeq l | BUnord l => forallb alts_nonempty l
+  | BAlt l => match l with [] => false | _ => true end && forallb alts_nonempty l
+  | BOpt x | BStar x | BPlus x => alts_nonempty x
+  end.
+
 (* ---------------------------------------------------------------- assignment events and the builder *)
 (* scalar Python values that matter here *)
 Inductive sval := SNone | SBool (v : bool) | SInt (z : Z) | SStr (s : list N) | SObj (id : nat).
